@@ -492,9 +492,33 @@ def propagate_aliases(fn: ast.AST) -> ast.AST:
             if ch:
                 stored_chains.add(tuple(ch))
 
+    def path_chain(e):
+        """like attr_chain, with constant subscripts as parts: self.ns["k"] -> ['self', 'ns', "['k']"]"""
+        parts = []
+        while True:
+            if isinstance(e, ast.Attribute):
+                parts.append(e.attr)
+                e = e.value
+            elif isinstance(e, ast.Subscript) and isinstance(e.slice, ast.Constant):
+                parts.append(f"[{e.slice.value!r}]")
+                e = e.value
+            else:
+                break
+        if isinstance(e, ast.Name):
+            parts.append(e.id)
+            return parts[::-1]
+        return None
+
+    for n in walk_no_nested(fn):
+        if isinstance(n, ast.Subscript) and isinstance(n.ctx, (ast.Store, ast.Del)) and isinstance(n.slice, ast.Constant):
+            ch = path_chain(n)
+            if ch:
+                stored_chains.add(tuple(ch))
+
     def chain_ok(e) -> bool:
-        ch = attr_chain(e)
-        if ch is None or len(ch) < 2 or ch[0] not in params or store_count.get(ch[0], 0):
+        ch = path_chain(e)
+        # rooted at a parameter, or at a module-level constant (ALL_CAPS name never bound here)
+        if ch is None or len(ch) < 2 or store_count.get(ch[0], 0) or not (ch[0] in params or (ch[0].isupper() and len(ch[0]) > 1)):
             return False
         # no prefix of the chain (and not the chain itself) is stored to in this function
         return not any(tuple(ch[:i]) in stored_chains for i in range(2, len(ch) + 1))
